@@ -2,7 +2,7 @@
    The clock is an explicit argument.  One pass = a transaction that selects the rows holding a
    value in the expire column and deletes those whose non-zero deadline lies before [now]. *)
 From stdpp Require Import gmap sorting.
-From ColumnV Require Import GenConsts Bytes Store StoreProofs.
+From ColumnV Require Import GenConsts Bytes Store StoreProofs Check.
 Local Open Scope N_scope.
 
 Definition expire_col : N := 99.
@@ -114,3 +114,31 @@ Proof.
   intros Hd Hz Hlt [_ He]%vacuum_fill. unfold expired in He. rewrite Hd in He.
   apply Z.eqb_neq in Hz. apply Z.ltb_lt in Hlt. rewrite Hz, Hlt in He. done.
 Qed.
+
+(* ---- Set / Extend (column_expire.go rwTTL.Set = put of now+ttl, rwTTL.Extend = additive merge) ----
+   the deadline cell after the operations one transaction issues on a row, in issue order: a Set
+   replaces it, every Extend adds its delta to whatever the cell holds at that point - so two Extends
+   add both deltas and an Extend after a Set adds to the new deadline *)
+Inductive ttl_op := TSet (deadline : N) | TExtend (delta : N).
+Definition ttl_to_op (i : N) (o : ttl_op) : op :=
+  match o with TSet d => mkop KPut i (V8 d) | TExtend a => mkop KMerge i (V8 a) end.
+Definition ttl_step (d : N) (o : ttl_op) : N :=
+  match o with TSet x => x | TExtend a => (d + a) mod 2 ^ 64 end.
+Definition ttl_col : column := col_num 64 merge_add.
+
+Theorem ttl_ops_fold i (l : list ttl_op) (d : N) :
+  foldl (cstep ttl_col) (Some (V8 d)) (ttl_to_op i <$> l) = Some (V8 (foldl ttl_step d l)).
+Proof.
+  revert d; induction l as [|o l IH]; intro d; [done|]. cbn [fmap list_fmap foldl].
+  destruct o as [x|a]; cbn [ttl_to_op ttl_step]; unfold cstep at 2, cell_step; cbn [ok oval ttl_col col_num cmerges cmrg czero ccast default id].
+  - apply IH.
+  - unfold merge_add. cbn [width_bits raw mkw]. change (64 =? 16) with false. change (64 =? 32) with false. cbn iota. apply IH.
+Qed.
+
+Corollary extend_twice i d a b :
+  foldl (cstep ttl_col) (Some (V8 d)) [ttl_to_op i (TExtend a); ttl_to_op i (TExtend b)] = Some (V8 (((d + a) mod 2 ^ 64 + b) mod 2 ^ 64)).
+Proof. exact (ttl_ops_fold i [TExtend a; TExtend b] d). Qed.
+
+Corollary set_then_extend i d x a :
+  foldl (cstep ttl_col) (Some (V8 d)) [ttl_to_op i (TSet x); ttl_to_op i (TExtend a)] = Some (V8 ((x + a) mod 2 ^ 64)).
+Proof. exact (ttl_ops_fold i [TSet x; TExtend a] d). Qed.
